@@ -279,7 +279,8 @@ RULES = {
     "C18": "(Seq) every enabled sequence up to the length bound over {join / leave of two peers, pull on handler A, create handler B, pull on "
            "handler B} on the handler's event log, exhaustively; (Node) rapid histories (up to 200 ops) on a direct-driven node under all "
            "three routers: remote subscribe / unsubscribe / disconnect / inbound-stream close on 2-5 peers interleaved with handler "
-           "creation, NextPeerEvent (immediate, blocked, two concurrent waiters, cancelled mid-wait) and handler cancellation. Oracle: per "
+           "creation (also behind a pending membership change, and racing Topic.Close on the same handle with the event loop held), "
+           "NextPeerEvent (immediate, blocked, two concurrent waiters, cancelled mid-wait) and handler cancellation. Oracle: per "
            "handler the returned events fold from the empty set to exactly the topic's membership once quiet and drained; strict "
            "join/leave alternation per peer starting with join; an event is returned iff one is pending; no call stays blocked while "
            "events are pending (judged at synctest quiescence). Non-trivial: a join and a leave of one peer fell before either was "
